@@ -130,6 +130,19 @@ def check_angle(acc: core.Acc, p: float, y: float, r: float, vec_forms: bool) ->
         if d > tol:
             acc.fail('to_angle_roundtrip', case, f'{cls.__name__}.from_angle{p, y, r}.to_angle() = {ang!r}; rebuilding differs by {d:g} '
                      f'(horizontal length {h:g}, tolerance {tol:g})', gimbal=h <= 0.001)
+        # the same matrix asked again, after the caller has edited the first answer in place (what `ang @= rot` does): the
+        # second answer must describe the unchanged matrix just as well - nothing handed out may be handed out again
+        if isinstance(ang, Angle):
+            try:
+                ang.pitch, ang.yaw, ang.roll = (ang.pitch + 33.0) % 360, (ang.yaw + 71.0) % 360, (ang.roll + 5.0) % 360
+                ang2 = mm.to_angle()
+                d2 = mdiff(rows(Matrix.from_angle(ang2)), R)
+                if d2 > tol:
+                    acc.fail('to_angle_second_call', case, f'{cls.__name__}.from_angle{p, y, r}: to_angle() called again after the first result was '
+                             f'edited in place returned {ang2!r}, which rebuilds a matrix differing by {d2:g}', cls=cls.__name__)
+            except Exception as exc:  # noqa: BLE001
+                acc.fail('to_angle_second_call', case, f'{cls.__name__}.from_angle{p, y, r}: second to_angle() raised {type(exc).__name__}: {exc}', cls=cls.__name__)
+            ang = mm.to_angle()
         if not isinstance(ang, Angle):
             acc.fail('result_type', case, f'{cls.__name__}.to_angle() returned {type(ang).__name__}')
         for comp in ang:
